@@ -145,6 +145,7 @@ class LoggedProblem(Problem):
         self.calls = 0         # attempted evaluations (including a failing one)
         self.fail_at = None    # 1-based index of the call that raises
         self.fail_exc = ObjectiveFailure
+        self.fail_args = None  # None: one message argument; otherwise the argument tuple (may be empty)
         self.max_calls = None  # runaway guard: beyond it a flag is set and every call raises
         self.runaway = False
         self.clock = clock if clock is not None else [0]
@@ -160,6 +161,8 @@ class LoggedProblem(Problem):
             self.runaway = True
             raise ObjectiveFailure("evaluation budget guard")
         if self.fail_at is not None and self.calls == self.fail_at:
+            if self.fail_args is not None:
+                raise self.fail_exc(*self.fail_args)
             raise self.fail_exc("injected failure at evaluation %d" % self.calls)
         y = tuple(float(v) for v in point.floatVariables)
         val = self.value_at(y)
@@ -183,6 +186,7 @@ class LoggedShipped(Problem):
         self.calls = 0
         self.fail_at = None
         self.fail_exc = ObjectiveFailure
+        self.fail_args = None  # None: one message argument; otherwise the argument tuple (may be empty)
         self.max_calls = None
         self.runaway = False
         self.clock = clock if clock is not None else [0]
@@ -195,6 +199,8 @@ class LoggedShipped(Problem):
         self.calls += 1
         self.clock[0] += 1
         if self.fail_at is not None and self.calls == self.fail_at:
+            if self.fail_args is not None:
+                raise self.fail_exc(*self.fail_args)
             raise self.fail_exc("injected failure at evaluation %d" % self.calls)
         y = tuple(float(v) for v in point.floatVariables)
         out = self.inner.Calculate(point, functionValue)
